@@ -227,7 +227,7 @@ def value_aliases(fnode):
                     cnt[a.id] = cnt.get(a.id, 0) + 1
                     val[a.id] = b
         elif isinstance(n, ast.Assign) and len(n.targets) == 1 and isinstance(n.targets[0], ast.Tuple) \
-                and isinstance(n.value, (ast.Attribute, ast.Name)) and not any(isinstance(e, ast.Starred) for e in n.targets[0].elts):
+                and isinstance(n.value, (ast.Attribute, ast.Name, ast.Call, ast.Subscript)) and not any(isinstance(e, ast.Starred) for e in n.targets[0].elts):
             # unpacking of a stored tuple: the i-th name is value[i]
             for i, a in enumerate(n.targets[0].elts):
                 if isinstance(a, ast.Name):
